@@ -30,6 +30,9 @@ impl From<Vec<u8>> for Bytes { fn from(v: Vec<u8>) -> (r: Bytes) { Bytes { v } }
 impl HasBytes for Bytes { open spec fn bytes_view(&self) -> Seq<u8> { self@ } }
 impl HasBytes for BytesMut { open spec fn bytes_view(&self) -> Seq<u8> { self@ } }
 impl BytesMut {
+    // A-bytes-32: BytesMut as a contiguous Buf: chunk() is all readable bytes
+    #[verifier::external_body]
+    pub fn chunk(&self) -> (r: &[u8]) ensures r@ == self@ { unimplemented!() }
     pub open spec fn view(&self) -> Seq<u8> { self.v@ }
     // A-bytes-01: remaining()/len() are the number of readable bytes (an allocation never exceeds isize::MAX)
     #[verifier::external_body]
